@@ -489,7 +489,16 @@ def run_impl(case):
                     continue
                 out.append(observe_map(m))
         return out
-    return [[0], run(case["ops"])]
+    if len(case["ops"]) % 2 == 0:
+        return [[0], run(case["ops"])]
+    # every other case: an unrelated second Builder has scopes open while this one is used, and is used itself from
+    # within this one's scopes (a peripheral's builder inside a SoC builder's block); the two must not see each other
+    other = csr.Builder(addr_width=8, data_width=8)
+    with other.Cluster("bystander"):
+        with other.Index(3):
+            res = run(case["ops"])
+            other.add("last", csr.Register(csr.Field(action.R, 8), access="r"))
+    return [[0], res]
 
 
 # ----------------------------------------------------------------------------- oracle (the property)
@@ -566,7 +575,8 @@ def oracle(case, obs):
     inv = {v: k for k, v in at.d.items()}
 
     def dec_name(nm):
-        return [inv[p[1]] if p[0] == 0 else p[1] for p in nm]
+        # a string the case never used (a name part that leaked in from somewhere else) decodes to a placeholder
+        return [inv.get(p[1], f"<foreign name part {p[1]}>") if p[0] == 0 else p[1] for p in nm]
 
     def walk(ops, obs, scope, where):
         if len(ops) != len(obs):
